@@ -28,3 +28,9 @@ pub mod pub_c03_messages;
 
 #[path = "pub_c04_handshake.rs"]
 pub mod pub_c04_handshake;
+
+#[path = "int_c04_private.rs"]
+pub mod int_c04_private;
+
+#[path = "pub_shim_nom.rs"]
+pub mod pub_shim_nom;
